@@ -246,6 +246,10 @@ func (p *parser) parseFunctionParameterList() *ast.ParameterList {
 				p.comments.Unset()
 			}
 			p.expect(token.COMMA)
+			if p.token == token.RIGHT_PARENTHESIS {
+				// 13: FormalParameterList ends with an Identifier.
+				p.errorUnexpectedToken(p.token)
+			}
 		}
 	}
 	closing := p.expect(token.RIGHT_PARENTHESIS)
